@@ -171,3 +171,144 @@ Definition u_tag (c : ucase) : Z :=
   end.
 
 Definition check_unit (cases : list ucase) : report := mk_report u_mismatch u_propfail u_tag cases.
+
+(* ------------------------------------------------------------------------ *)
+(* End to end: one client exchange through the running proxy *)
+Inductive obs_resp :=
+| ONone                                                  (* no parseable response / connection dropped *)
+| OResp (status : Z) (h : hdrs) (fr : framing) (body : str).
+
+Inductive rcase :=
+| RC (transport : Z)                     (* 0 plain proxying, 1 one kept-alive tunnel, 2 one tunnel per request *)
+     (req : creq)                        (* what the client sent; c_hdrs as net/http parses it (canonical keys, no Host) *)
+     (ostatus : Z) (ohdrs : hdrs) (obody : str) (oabort : bool) (lm_imf : bool)
+                                         (* the origin's script: status, header map as net/http parses it, body;
+                                            oabort = the origin closes the connection instead of answering;
+                                            lm_imf = its Last-Modified (if any) is one IMF-fixdate *)
+     (x : exchange)                      (* branch descriptor, see harness *)
+     (ups : list ureq)                   (* requests the origin recorded during the exchange *)
+     (resp : obs_resp).
+
+Definition framing_eqb (a b : framing) : bool :=
+  match a, b with
+  | FLen n, FLen m => n =? m
+  | FChunked, FChunked => true
+  | FClose, FClose => true
+  | FBare, FBare => true
+  | _, _ => false
+  end.
+
+Definition has_field (k : str) (h : hdrs) : bool := nonempty_list (hraw_get k h).
+
+(* fields the HTTP stack of the client-side hop adds on its own *)
+Definition s_Date : str := [68;97;116;101].
+Definition resp_stack_skip (model_h : hdrs) (k : str) : bool :=
+  str_eqb k s_Connection ||
+  (str_eqb k s_Date && negb (has_field s_Date model_h)) ||
+  (str_eqb k s_Content_Type && negb (has_field s_Content_Type model_h)).
+
+Definition wire_matches (check_framing : bool) (w : wire) (o : obs_resp) : bool :=
+  match o with
+  | ONone => false
+  | OResp st h fr b =>
+      (st =? w_status w) &&
+      agree_except (resp_stack_skip (w_hdrs w)) (w_hdrs w) (strip_framing h) &&
+      str_eqb b (w_body w) &&
+      (negb check_framing || framing_eqb fr (w_framing w))
+  end.
+
+Definition model_wires (transport : Z) (x : exchange) : list wire :=
+  if transport =? 0 then plain_exchange x else single_exchange x.
+
+Definition s_User_Agent : str := [85;115;101;114;45;65;103;101;110;116].
+Definition s_Accept_Encoding : str := [65;99;99;101;112;116;45;69;110;99;111;100;105;110;103].
+Definition req_stack_skip (client_h : hdrs) (k : str) : bool :=
+  str_eqb k s_Connection || str_eqb k s_Content_Length || str_eqb k s_Transfer_Encoding ||
+  (str_eqb k s_User_Agent && negb (has_field s_User_Agent client_h)) ||
+  (str_eqb k s_Accept_Encoding && negb (has_field s_Accept_Encoding client_h)) ||
+  existsb (str_eqb k) conditional_names.
+
+Definition up_matches (req : creq) (u : ureq) : bool :=
+  match relay_request req with
+  | None => false
+  | Some q =>
+      str_eqb (q_method q) (q_method u) && str_eqb (q_target q) (q_target u) && str_eqb (q_body q) (q_body u) &&
+      agree_except (req_stack_skip (c_hdrs req)) (q_hdrs q) (q_hdrs u)
+  end.
+
+Definition rc_mismatch (c : rcase) : bool :=
+  let '(RC transport req ostatus ohdrs obody oabort lm_imf x ups resp) := c in
+  negb (forallb (up_matches req) ups &&
+        match model_wires transport x with
+        | [w] => wire_matches (negb (transport =? 0)) w resp
+        | _ => false
+        end).
+
+(* ---- the property, on the observation alone ---- *)
+Definition owned_replace : list str := [n_accept_ranges; n_age; n_content_length; n_transfer_encoding].
+Definition owned_append : list str := [n_via; n_x_cache; n_cache_status].
+Definition is_stored (x : exchange) : bool :=
+  match x_kind x with KStored _ _ _ _ _ _ => true | KPartial _ _ _ _ _ _ => true | _ => false end.
+Definition ref_body_allowed (st : Z) : bool :=
+  negb (((100 <=? st) && (st <=? 199)) || (st =? 204) || (st =? 304)).
+
+Definition resp_propfail (req : creq) (ostatus : Z) (ohdrs : hdrs) (obody : str) (lm_imf : bool) (x : exchange) (resp : obs_resp) : bool :=
+  match resp with
+  | ONone => true
+  | OResp st h fr b =>
+      let has_range := nonempty_list (vals_ci n_range (c_hdrs req)) in
+      let head := ieq (c_method req) [72;69;65;68] in
+      let range_answer := has_range && ((st =? 206) || (st =? 416)) && negb (st =? ostatus) in
+      negb (
+        ((st =? ostatus) || range_answer) &&
+        ((range_answer && (st =? 416)) ||
+         forallb (fun e =>
+           let n := fst e in let vs := snd e in
+           if ref_hop n ohdrs then disjoint (vals_ci n h) vs
+           else if mem_ci n owned_replace then true
+           else if mem_ci n owned_append then is_prefix vs (vals_ci n h)
+           else if (st =? 206) && ieq n n_content_range then true
+           else if is_stored x && ieq n n_etag then strs_eqb (vals_ci n h) vs || strs_eqb (vals_ci n h) (firstn 1 vs)
+           else if is_stored x && ieq n n_last_modified then negb lm_imf || strs_eqb (vals_ci n h) vs
+           else strs_eqb (vals_ci n h) vs) ohdrs) &&
+        (if head then str_eqb b []
+         else if range_answer then true
+         else if ref_body_allowed st then str_eqb b obody else str_eqb b []))
+  end.
+
+Definition n_host : str := [104;111;115;116].
+Definition allowed_extras : list str :=
+  [n_user_agent; n_accept_encoding; n_content_length; n_connection] ++ names_cond.
+
+Definition up_propfail (req : creq) (u : ureq) : bool :=
+  let ch := c_hdrs req in
+  negb (
+    str_eqb (q_method u) (c_method req) &&
+    (negb (ref_valid_path (c_rawpath req)) || str_eqb (q_target u) (ref_target (c_rawpath req) (c_query req))) &&
+    str_eqb (q_body u) (c_body req) &&
+    forallb (fun e =>
+      let n := fst e in let vs := snd e in
+      if ref_hop n ch then disjoint (vals_ci n (q_hdrs u)) vs
+      else if mem_ci n names_cond || ieq n n_content_length || ieq n n_host then true
+      else strs_eqb (vals_ci n (q_hdrs u)) vs) ch &&
+    forallb (fun k => mem_ci k (hkeys ch) || mem_ci k allowed_extras) (hkeys (q_hdrs u))).
+
+Definition rc_propfail (c : rcase) : bool :=
+  let '(RC transport req ostatus ohdrs obody oabort lm_imf x ups resp) := c in
+  existsb (up_propfail req) ups ||
+  (negb oabort && resp_propfail req ostatus ohdrs obody lm_imf x resp).
+
+Definition rc_tag (c : rcase) : Z :=
+  let '(RC transport req ostatus ohdrs obody oabort lm_imf x ups resp) := c in
+  transport * 100 +
+  (match x_meth x with MPlain => 0 | MHead => 10 | MPost => 20 end) +
+  match x_kind x with
+  | KDirect st _ _ => if (200 <=? st) && (st <? 300) then 1 else 2
+  | KStored HMiss _ _ _ _ _ => 3
+  | KStored _ _ _ _ _ _ => 4
+  | KPartial _ _ _ _ _ _ => 5
+  | KRefuse _ => 6
+  | KBadGateway => 7
+  end.
+
+Definition check_e2e (cases : list rcase) : report := mk_report rc_mismatch rc_propfail rc_tag cases.
